@@ -14,6 +14,10 @@ type ObResult struct {
 	Millis  int64
 	KnownID string // set when the counterexample is attributed to a listed known finding
 	Err     string
+	// Confirmed: the model was replayed natively and reproduced (sat results only)
+	Confirmed bool
+	Native    string
+	Spurious  int // models that did not reproduce and were blocked before this verdict
 }
 
 // DischargeStats summarises solver work.
@@ -84,6 +88,20 @@ func (x *Exec) Assignment(model map[string]uint64) map[string]interface{} {
 // Discharge decides every obligation. knownListed is the set of known-finding ids that are listed
 // with status "known" (their predicates are excluded from the violation query).
 func (x *Exec) Discharge(solver string, timeout time.Duration, knownListed map[string]bool, progress func(string)) ([]ObResult, DischargeStats, error) {
+	return x.discharge(solver, timeout, knownListed, progress, nil, 0)
+}
+
+// ConfirmFunc replays a model natively; it returns whether the real code reproduced it.
+type ConfirmFunc func(ob *Obligation, assign map[string]interface{}) (bool, string)
+
+// DischargeConfirm is Discharge with native confirmation of every model: a model that does not
+// reproduce (an artefact of a nondeterministic stub) is blocked and the query repeated, at most
+// `retries` times.
+func (x *Exec) DischargeConfirm(solver string, timeout time.Duration, knownListed map[string]bool, confirm ConfirmFunc, retries int) ([]ObResult, DischargeStats, error) {
+	return x.discharge(solver, timeout, knownListed, nil, confirm, retries)
+}
+
+func (x *Exec) discharge(solver string, timeout time.Duration, knownListed map[string]bool, progress func(string), confirm ConfirmFunc, retries int) ([]ObResult, DischargeStats, error) {
 	st := DischargeStats{Solver: solver}
 	sv, err := NewSolver(solver, x.tb)
 	if err != nil {
@@ -103,13 +121,41 @@ func (x *Exec) Discharge(solver string, timeout time.Duration, knownListed map[s
 		id   int
 	}
 	cache := map[qkey]*ObResult{}
-	check := func(cond *Term) (Result, map[string]uint64, int64, error) {
+	check1 := func(cond *Term) (Result, map[string]uint64, int64, error) {
 		t0 := time.Now()
 		r, m, err := sv.Check(timeout, vars, base, cond)
 		st.Queries++
 		ms := time.Since(t0).Milliseconds()
 		st.SolverMs += ms
 		return r, m, ms, err
+	}
+	// checkC: check with native confirmation and blocking of non-reproducing models
+	var curOb *Obligation
+	var lastConfirmed bool
+	var lastNative string
+	var lastSpurious int
+	check := func(cond *Term) (Result, map[string]uint64, int64, error) {
+		lastConfirmed, lastNative, lastSpurious = false, "", 0
+		var total int64
+		for attempt := 0; ; attempt++ {
+			r, m, ms, err := check1(cond)
+			total += ms
+			if r != Sat || confirm == nil {
+				lastConfirmed = r == Sat && confirm == nil
+				return r, m, total, err
+			}
+			ok, native := confirm(curOb, x.Assignment(m))
+			lastNative = native
+			if ok {
+				lastConfirmed = true
+				return r, m, total, err
+			}
+			if attempt >= retries {
+				return r, m, total, err
+			}
+			lastSpurious++
+			cond = tb.And(cond, tb.Not(x.modelCube(m)))
+		}
 	}
 	for _, ob := range x.Obligations {
 		k := qkey{ob.Kind + "|" + ob.Label + "|" + ob.Pos, ob.Cond.ID}
@@ -119,6 +165,7 @@ func (x *Exec) Discharge(solver string, timeout time.Duration, knownListed map[s
 		}
 		st.Distinct++
 		res := ObResult{Ob: ob}
+		curOb = ob
 		cond := ob.Cond
 		if ob.Kind != "cover" && len(ob.Known) > 0 {
 			// 1. violation outside every listed known finding
@@ -133,6 +180,7 @@ func (x *Exec) Discharge(solver string, timeout time.Duration, knownListed map[s
 			sort.Strings(ids)
 			r, m, ms, err := check(tb.And(cond, tb.Not(excl)))
 			res.Res, res.Millis = r, ms
+			res.Confirmed, res.Native, res.Spurious = lastConfirmed, lastNative, lastSpurious
 			if err != nil {
 				res.Err = err.Error()
 			}
@@ -151,7 +199,7 @@ func (x *Exec) Discharge(solver string, timeout time.Duration, knownListed map[s
 			// 2. does each listed finding still reproduce?
 			for _, id := range ids {
 				r2, m2, ms2, _ := check(tb.And(cond, ob.Known[id]))
-				kr := ObResult{Ob: ob, Res: r2, Millis: ms2, KnownID: id}
+				kr := ObResult{Ob: ob, Res: r2, Millis: ms2, KnownID: id, Confirmed: lastConfirmed, Native: lastNative, Spurious: lastSpurious}
 				if r2 == Sat {
 					kr.Assign = x.Assignment(m2)
 				}
@@ -168,6 +216,7 @@ func (x *Exec) Discharge(solver string, timeout time.Duration, knownListed map[s
 			progress(fmt.Sprintf("%s %s %dms %s @ %s", ob.Kind, r, ms, ob.Label, ob.Pos))
 		}
 		res.Res, res.Millis = r, ms
+		res.Confirmed, res.Native, res.Spurious = lastConfirmed, lastNative, lastSpurious
 		if err != nil {
 			res.Err = err.Error()
 		}
@@ -214,4 +263,29 @@ func (x *Exec) Close() {
 	if x.feas != nil {
 		x.feas.Close()
 	}
+}
+
+// modelCube is the conjunction "every named input has its model value".
+func (x *Exec) modelCube(model map[string]uint64) *Term {
+	tb := x.tb
+	memo := map[int]uint64{}
+	c := tb.True
+	for _, in := range x.Inputs {
+		switch in.Kind {
+		case "string":
+			n := tb.Eval(in.Len, model, memo)
+			c = tb.And(c, tb.Eq(in.Len, tb.BV(64, n)))
+			for i := 0; i < int(n) && i < len(in.B); i++ {
+				c = tb.And(c, tb.Eq(in.B[i], tb.BV(8, tb.Eval(in.B[i], model, memo))))
+			}
+		default:
+			v := tb.Eval(in.T, model, memo)
+			if in.T.W == 0 {
+				c = tb.And(c, tb.Eq(in.T, tb.Bool(v == 1)))
+			} else {
+				c = tb.And(c, tb.Eq(in.T, tb.BV(in.T.W, v)))
+			}
+		}
+	}
+	return c
 }
